@@ -589,7 +589,11 @@ impl Arena {
       let next_node = next.load(Ordering::Acquire);
       let (next_node_size, next_next_offset) = decode_segment_node(next_node);
       if next_node_size == REMOVED_SEGMENT_NODE {
+        // the remover either unlinks the next node from `current` or restores it,
+        // so `current` must be read again: once unlinked, the removed node keeps its mark.
         backoff.snooze();
+        current_node = current.load(Ordering::Acquire);
+        (current_node_size, next_offset) = decode_segment_node(current_node);
         continue;
       }
 
@@ -650,7 +654,10 @@ impl Arena {
 
       if check(val, next_node_size) {
         if next_node_size == REMOVED_SEGMENT_NODE {
+          // see `find_position`: read `current` again, the removed node keeps its mark once it is unlinked.
           backoff.snooze();
+          current_node = current.load(Ordering::Acquire);
+          (current_node_size, next_offset) = decode_segment_node(current_node);
           continue;
         }
 
